@@ -24,12 +24,8 @@ func newReaderBackedChunkReader(r io.ReadCloser, maximumChunkSizeBytes int) Chun
 func (r *readerBackedChunkReader) Read() ([]byte, error) {
 	if r.err == nil {
 		b := make([]byte, r.maximumChunkSizeBytes)
-		n, err := io.ReadFull(r.r, b[:])
-		if err == io.ErrUnexpectedEOF {
-			r.err = io.EOF
-		} else {
-			r.err = err
-		}
+		n, err := readFullOrEOF(r.r, b[:])
+		r.err = err
 		if n > 0 {
 			return b[:n], nil
 		}
@@ -39,4 +35,25 @@ func (r *readerBackedChunkReader) Read() ([]byte, error) {
 
 func (r *readerBackedChunkReader) Close() {
 	r.r.Close()
+}
+
+// readFullOrEOF reads from r until p is filled, just like
+// io.ReadFull(). It differs in that a stream ending before p is filled
+// is reported as io.EOF, not io.ErrUnexpectedEOF. This makes it
+// possible to pass through io.ErrUnexpectedEOF errors returned by the
+// underlying reader itself (e.g. a decompressor observing a truncated
+// stream), instead of mistaking them for a clean end of the stream.
+func readFullOrEOF(r io.Reader, p []byte) (int, error) {
+	n := 0
+	for n < len(p) {
+		nRead, err := r.Read(p[n:])
+		n += nRead
+		if err != nil {
+			if n >= len(p) {
+				return n, nil
+			}
+			return n, err
+		}
+	}
+	return n, nil
 }
